@@ -4,11 +4,13 @@
 package main
 
 import (
+	"bytes"
 	"fmt"
 	"strings"
 
 	"github.com/pion/rtcp"
 	"github.com/pion/sdp/v3"
+	"github.com/pion/webrtc/v4"
 
 	"github.com/jech/galene/sdpfrag"
 	"github.com/jech/galene/zzverif/common"
@@ -43,6 +45,13 @@ func (e *eng) Exec(op []string) string {
 			return fmt.Sprintf("ok %d marshal-err", n)
 		}
 		return fmt.Sprintf("ok %d", n)
+	case "sdpparse":
+		return sdpParse(common.Unhex(op[1]))
+	case "sdplong":
+		b := append([]byte(nil), common.Unhex(op[1])...)
+		b = append(b, bytes.Repeat([]byte{byte(common.Atoi(op[2]))}, common.Atoi(op[3]))...)
+		b = append(b, common.Unhex(op[4])...)
+		return sdpParse(b)
 	case "rtcp":
 		ps, err := rtcp.Unmarshal(common.Unhex(op[1]))
 		if err != nil {
@@ -51,6 +60,55 @@ func (e *eng) Exec(op []string) string {
 		return fmt.Sprintf("ok %d", len(ps))
 	}
 	panic("unknown op " + op[0])
+}
+
+// field renders a byte string: hex, or `#len:hash` when long (same in Engine/FuzzMisc.lean).
+func field(s string) string {
+	if len(s) <= 64 {
+		return common.Hex([]byte(s))
+	}
+	return fmt.Sprintf("#%d:%d", len(s), common.HashBytes([]byte(s)))
+}
+
+func optField(s *string) string {
+	if s == nil {
+		return "~"
+	}
+	return field(*s)
+}
+
+func candTok(c webrtc.ICECandidateInit) string {
+	idx := "~"
+	if c.SDPMLineIndex != nil {
+		idx = fmt.Sprint(*c.SDPMLineIndex)
+	}
+	return field(c.Candidate) + "," + optField(c.UsernameFragment) + "," + idx + "," + optField(c.SDPMid)
+}
+
+// sdpParse runs the real Unmarshal on a zero SDPFrag and renders everything it produced.
+func sdpParse(data []byte) string {
+	var f sdpfrag.SDPFrag
+	if err := f.Unmarshal(data); err != nil {
+		return "err"
+	}
+	out := []string{"ok", "u=" + field(f.UsernameFragment), "p=" + field(f.Password), fmt.Sprintf("nc=%d", len(f.Candidates))}
+	for _, c := range f.Candidates {
+		out = append(out, candTok(c))
+	}
+	out = append(out, fmt.Sprintf("nm=%d", len(f.MediaDescriptions)))
+	for _, m := range f.MediaDescriptions {
+		out = append(out, "M", field(m.MLine), field(m.Mid), field(m.UsernameFragment), field(m.Password), fmt.Sprint(len(m.Candidates)))
+		for _, c := range m.Candidates {
+			out = append(out, candTok(c))
+		}
+	}
+	u, p := f.UFragPwd()
+	ms, err := f.Marshal()
+	if err != nil {
+		return "marshal-err"
+	}
+	out = append(out, "up="+field(u)+","+field(p), fmt.Sprintf("all=%d", len(f.AllCandidates())), "ms="+field(string(ms)))
+	return strings.Join(out, " ")
 }
 
 var fragLines = []string{
@@ -89,6 +147,30 @@ func gen(t *common.Trace, e common.Engine, r *common.Rng, thorough bool) {
 		}
 		res := common.Do(t, e, "sdpfrag "+common.Hex([]byte(s)))
 		t.Count("sdpfrag:" + strings.Fields(res)[0])
+		res = common.Do(t, e, "sdpparse "+common.Hex([]byte(s)))
+		t.Count("sdpparse:" + strings.Fields(res)[0])
+	}
+	// lines around bufio.Scanner's 64 KiB token limit (Unmarshal ignores scanner.Err())
+	t.Case("sdplong")
+	nl := 40
+	if thorough {
+		nl = 400
+	}
+	for i := 0; i < nl; i++ {
+		pre := ""
+		for j := r.Intn(3); j > 0; j-- {
+			pre += common.Pick(r, fragLines...) + common.Pick(r, "\r\n", "\n")
+		}
+		head := common.Pick(r, "a=candidate:", "a=ice-ufrag:", "a=ice-pwd:", "m=", "a=mid:", "x", "")
+		pre += head
+		count := 65536 - len(head) + common.Pick(r, -3, -2, -1, 0, 1, 2, r.Range(-70000, 70000))
+		if count < 0 {
+			count = 0
+		}
+		suf := common.Pick(r, "", "\n", "\r\n", "\r", "\r\r\n") + common.Pick(r, "", "a=candidate:z\n", "m=audio\r\na=mid:7", "a=mid:1\n")
+		fill := common.Pick(r, 'x', 'x', '\r', ' ', 0)
+		res := common.Do(t, e, fmt.Sprintf("sdplong %s %d %d %s", common.Hex([]byte(pre)), fill, count, common.Hex([]byte(suf))))
+		t.Count("sdplong:" + strings.Fields(res)[0])
 	}
 	t.Case("rtcp")
 	for i := 0; i < n; i++ {
